@@ -21,6 +21,7 @@
 
 #include <sys/stat.h>
 #include <math.h>
+#include <limits.h>
 
 #define too_deep_save_error() \
     error("Mappings and/or arrays nested too deep (%d) for save_object\n", MAX_SAVE_SVALUE_DEPTH);
@@ -1047,6 +1048,8 @@ static int restore_class (char **str, svalue_t * ret) {
     size = save_svalue_sizes[save_svalue_depth - 1];
   else if ((size = restore_size (str, 0)) < 0)
     return ROB_CLASS_ERROR;
+  if (size > USHRT_MAX)
+    return ROB_CLASS_ERROR; /* array_t counts its members in an unsigned short: the count would be truncated */
 
   v = allocate_class_by_size (size);	/* after this point we have to clean up
                                            or we'll leak */
